@@ -21,6 +21,7 @@ type SEnv struct {
 	entryParams bool
 	bound       map[string]string
 	depth       int
+	factSt      *State // receives closed auxiliary facts generated under binders
 }
 
 type part struct {
@@ -169,6 +170,15 @@ func (e *SEnv) eval(sx *SX) Val {
 			return v
 		case base.G != nil && mapValType(base.G) != nil:
 			v, _ := x.mapRead(e.stForFacts(), base, i.T)
+			if e.factSt != nil && !strings.Contains(base.T, "q_") {
+				// stored values are well typed: a closed, quantified fact for reads under binders
+				if vt := mapValType(base.G); vt != nil {
+					if _, _, ok := intRange(vt); ok {
+						d, vv, _, _ := x.mapParts(e.factSt, base)
+						e.factSt.assume(fmt.Sprintf("(forall ((k Int)) (! (=> (select %s k) %s) :pattern ((select %s k))))", d, inRange(app("select", vv, "k"), vt), vv))
+					}
+				}
+			}
 			return v
 		case strings.HasPrefix(base.S, "(Array Int "):
 			return Val{T: app("select", base.T, i.T), S: arrayElem(base.S)}
@@ -199,6 +209,9 @@ func (e *SEnv) eval(sx *SX) Val {
 		// facts produced while evaluating under a binder must not leak into the state
 		tmp := e.st.fork()
 		sub.st = tmp
+		if sub.factSt == nil {
+			sub.factSt = e.st
+		}
 		body := sub.evalBool(sx.Args[0])
 		// carry heap components that were created lazily
 		for k, v := range tmp.heap {
@@ -481,6 +494,23 @@ func (e *SEnv) evalCallSX(sx *SX) Val {
 			sub.entryParams = false
 		}
 		return sub.eval(sx.Args[0])
+	case "oldat":
+		// oldat(s, i): element i (current value of i) of slice s as it was in the pre-state
+		if !argn(2) {
+			break
+		}
+		if e.old == nil {
+			return e.fail(sx, "oldat() is not available here")
+		}
+		sub := *e
+		sub.st = e.old
+		sub.old = nil
+		sl := sub.eval(sx.Args[0])
+		i := e.eval(sx.Args[1])
+		if sl.S != "Slice" {
+			return e.fail(sx, "oldat of non-slice")
+		}
+		return x.sliceAt(e.old, sl, i.T)
 	case "len", "cap":
 		if !argn(1) {
 			break
@@ -504,6 +534,7 @@ func (e *SEnv) evalCallSX(sx *SX) Val {
 		d, v, vs, _ := x.mapParts(e.st, m)
 		if len(e.bound) == 0 {
 			x.nilMapFacts(e.st, m, d, v, vs, "")
+			e.st.assume(app(">=", app("msum", d, v), "0"))
 		}
 		return Val{T: app("msum", d, v), S: "Int"}
 	case "msumR":
@@ -513,6 +544,9 @@ func (e *SEnv) evalCallSX(sx *SX) Val {
 		m := e.eval(sx.Args[0])
 		s := e.eval(sx.Args[1])
 		d, v, _, _ := x.mapParts(e.st, m)
+		if len(e.bound) == 0 {
+			e.st.assume(and(app(">=", app("msumR", d, v, s.T), "0"), app("<=", app("msumR", d, v, s.T), app("msum", d, v))))
+		}
 		return Val{T: app("msumR", d, v, s.T), S: "Int"}
 	case "dom":
 		if !argn(2) {
